@@ -137,3 +137,194 @@ Theorem subst_key_identity s b t : all_identity s -> subst_key s b t = [(b, t)].
 Proof.
   intro H. unfold subst_key. rewrite !(subst_identity s H). reflexivity.
 Qed.
+
+(* ---- round trip ---- *)
+
+(* well-formed substitutions: one entry per key, keys are parameters (what [sup] builds) *)
+Definition wf_subs (s : subs) : Prop :=
+  NoDup (map fst s) /\
+  (forall p v, In (p, v) s -> is_param_ident p = true) /\
+  (forall p v, In (p, VExpr v) s -> is_expr_kind (tlabel v) = true).
+
+Lemma expr_not_type l : is_expr_kind l = true -> is_type_kind l = false.
+Proof.
+  unfold is_expr_kind, is_type_kind. destruct (get 0 (lk l)) as [c|]; [|discriminate].
+  destruct c as [[] [] [] [] [] [] [] []]; try discriminate; reflexivity.
+Qed.
+
+Lemma stable_eq s rm l ks :
+  stable s rm (Node l ks) =
+  if (is_type_kind l && is_some (rm_lookup rm (VType (Node l ks))))
+     || (is_expr_kind l && is_some (rm_lookup rm (VExpr (Node l ks)))) then true
+  else
+    let here := match ty_param (Node l ks) with
+                | Some q => Some q
+                | None => ex_param (Node l ks)
+                end in
+    match here with
+    | Some q => match lookup s q with
+                | Some (VType _) | Some (VExpr _) => false
+                | _ => forallb (stable s rm) ks
+                end
+    | None => forallb (stable s rm) ks
+    end.
+Proof. reflexivity. Qed.
+
+Lemma cprod_in {A} (xss : list (list A)) : forall ys,
+  In ys (cprod xss) -> Forall2 (fun y xs => In y xs) ys xss.
+Proof.
+  induction xss as [|xs xss IH]; simpl; intros ys H.
+  - destruct H as [H|[]]; subst; constructor.
+  - apply in_flat_map in H. destruct H as (x & Hx & H).
+    apply in_map_iff in H. destruct H as (ys' & Hy & H). subst ys. constructor; auto.
+Qed.
+
+Lemma ty_param_mk p : is_param_ident p = true -> ty_param (mk_ty_param p) = Some p.
+Proof. intro H. unfold mk_ty_param, ty_param, path_param, mk_path_ident. simpl. rewrite H. reflexivity. Qed.
+
+Lemma ex_param_mk p : is_param_ident p = true -> ex_param (mk_ex_param p) = Some p.
+Proof. intro H. unfold mk_ex_param, ex_param, path_param, mk_path_ident. simpl. rewrite H. reflexivity. Qed.
+
+Lemma apply_mk_path s p : apply s (mk_path_ident p) = mk_path_ident p.
+Proof. unfold mk_path_ident. rewrite apply_by_kind by reflexivity. cbn [map]. rewrite apply_leaf1. reflexivity. Qed.
+
+Lemma apply_param_kids s q :
+  map (apply s) [Node (K "ONone" "") []; mk_path_ident q] = [Node (K "ONone" "") []; mk_path_ident q].
+Proof. cbn [map]. rewrite apply_leaf, apply_mk_path. reflexivity. Qed.
+
+Lemma lookup_in s : forall p v, lookup s p = Some v -> In (p, v) s.
+Proof.
+  induction s as [|[q w] s IHs]; simpl; intros p v H; [discriminate|].
+  destruct (String.eqb q p) eqn:E.
+  - apply String.eqb_eq in E. inversion H; subst. left; reflexivity.
+  - right; auto.
+Qed.
+
+Lemma map_roundtrip s rm ks :
+  Forall (fun k => stable s rm k = true -> forall r, In r (subst rm k) -> apply s r = k) ks ->
+  forallb (stable s rm) ks = true ->
+  forall ks', Forall2 (fun y xs => In y xs) ks' (map (subst rm) ks) -> map (apply s) ks' = ks.
+Proof.
+  induction 1 as [|k ks Hk Hks IH]; intros Hst ks' Hin.
+  - inversion Hin; subst. reflexivity.
+  - simpl in Hst. apply andb_true_iff in Hst. destruct Hst as [S1 S2].
+    simpl in Hin. inversion Hin as [|y xs ys' xss Hy Hrest]; subst.
+    simpl. f_equal; auto.
+Qed.
+
+Theorem subst_roundtrip s : wf_subs s -> forall t,
+  stable s (reverse_map s) t = true ->
+  forall r, In r (subst (reverse_map s) t) -> apply s r = t.
+Proof.
+  intros (Hnd & Hpar & Hsort).
+  assert (Hrm : forall u ps p, rm_lookup (reverse_map s) u = Some ps -> In p ps ->
+                               lookup s p = Some u /\ is_param_ident p = true).
+  { intros u ps p H Hp. destruct (reverse_map_sound _ _ _ H) as [_ Hin].
+    split; [apply lookup_in_nodup; auto | eapply Hpar; eauto]. }
+  assert (Hne : forall u, rm_lookup (reverse_map s) u <> Some []).
+  { intros u H. destruct (reverse_map_sound _ _ _ H) as [Hn _]. congruence. }
+  induction t as [l ks IH] using term_ind'. intros Hst r Hr.
+  rewrite stable_eq in Hst. rewrite subst_eq in Hr. cbv zeta in Hr, Hst.
+  (* the descend case, shared by all three branches *)
+  assert (Hdesc :
+    (is_type_kind l && is_some (rm_lookup (reverse_map s) (VType (Node l ks)))) ||
+    (is_expr_kind l && is_some (rm_lookup (reverse_map s) (VExpr (Node l ks)))) = false ->
+    In r (map (Node l) (cprod (map (subst (reverse_map s)) ks))) -> apply s r = Node l ks).
+  { intros Hcond Hin. rewrite Hcond in Hst.
+    apply in_map_iff in Hin. destruct Hin as (ks' & Hr' & Hin). subst r.
+    apply cprod_in in Hin.
+    assert (Hst_kids : forallb (stable s (reverse_map s)) ks = true).
+    { destruct (match ty_param (Node l ks) with Some q => Some q | None => ex_param (Node l ks) end) as [q|];
+        [destruct (lookup s q) as [[?|?|]|]; try discriminate; exact Hst | exact Hst]. }
+    assert (Hmap : map (apply s) ks' = ks) by (eapply map_roundtrip; eauto).
+    rewrite apply_eq. rewrite Hmap. unfold apply_node.
+    destruct (ty_param (Node l ks')) as [q|] eqn:Etq.
+    { (* the rebuilt node is a type parameter: then so was the original, unchanged *)
+      pose proof (ty_param_inv _ _ Etq) as E. inversion E; subst l ks'.
+      rewrite apply_param_kids in Hmap. subst ks.
+      unfold mk_ty_param in Etq. rewrite Etq in Hst. unfold bound_term.
+      destruct (lookup s q) as [[?|?|]|]; try discriminate; reflexivity. }
+    destruct (ex_param (Node l ks')) as [q|] eqn:Eeq.
+    { pose proof (ex_param_inv _ _ Eeq) as E. inversion E; subst l ks'.
+      rewrite apply_param_kids in Hmap. subst ks.
+      unfold mk_ex_param in Eeq, Etq. rewrite Etq, Eeq in Hst. unfold bound_term.
+      destruct (lookup s q) as [[?|?|]|]; try discriminate; reflexivity. }
+    destruct (is_kind "GType" l) eqn:Eg; [|reflexivity].
+    destruct ks' as [|c' [|]]; try reflexivity.
+    destruct (ty_param c') as [p|] eqn:Ec; try reflexivity.
+    destruct (lookup s p) as [[v|v|]|] eqn:Elp; try reflexivity.
+    (* a type parameter bound to an expression directly under GType: impossible here *)
+    exfalso.
+    destruct ks as [|c [|]]; try discriminate. simpl in Hmap. inversion Hmap as [Hc]; clear Hmap.
+    inversion Hin as [|? ? ? ? Hin1 _]; subst. inversion IH as [|? ? IHc _]; subst.
+    simpl in Hst_kids. rewrite andb_true_r in Hst_kids.
+    pose proof (ty_param_inv _ _ Ec) as Ec'. subst c'.
+    (* the original child is the expression the parameter is bound to *)
+    assert (Hcv : apply s (mk_ty_param p) = v).
+    { unfold mk_ty_param. rewrite apply_eq. unfold apply_node.
+      unfold mk_ty_param in Ec. rewrite Ec. unfold bound_term. rewrite Elp. reflexivity. }
+    assert (Hsv : is_expr_kind (tlabel v) = true).
+    { eapply Hsort. apply lookup_in. exact Elp. }
+    rewrite Hcv in Hin1. clear - Hin1 Hsv Hne.
+    destruct v as [lc kc]. cbn [tlabel] in Hsv.
+    rewrite subst_eq in Hin1. cbv zeta in Hin1. rewrite (expr_not_type _ Hsv), Hsv in Hin1.
+    unfold replaced in Hin1.
+    destruct (rm_lookup (reverse_map s) (VExpr (Node lc kc))) as [[|q0 qs]|] eqn:Er.
+    - eapply Hne; eauto.
+    - apply in_map_iff in Hin1. destruct Hin1 as (q & Hq & _). discriminate.
+    - apply in_map_iff in Hin1. destruct Hin1 as (kc' & Hq & _). unfold mk_ty_param in Hq.
+      inversion Hq; subst lc. discriminate. }
+  (* now the three branches of [subst] *)
+  destruct (is_type_kind l) eqn:Et.
+  { unfold replaced in Hr.
+    destruct (rm_lookup (reverse_map s) (VType (Node l ks))) as [[|q0 qs]|] eqn:Er.
+    - exfalso; eapply Hne; eauto.
+    - apply in_map_iff in Hr. destruct Hr as (q & Hq & Hin). subst r.
+      destruct (Hrm _ _ _ Er Hin) as [Hl Hp].
+      unfold mk_ty_param. rewrite apply_eq. unfold apply_node.
+      pose proof (ty_param_mk _ Hp) as E. unfold mk_ty_param in E. rewrite E.
+      unfold bound_term. rewrite Hl. reflexivity.
+    - apply Hdesc; [|exact Hr]. cbn [andb is_some orb].
+      destruct (is_expr_kind l) eqn:Ee; [|reflexivity].
+      apply expr_not_type in Ee. congruence. }
+  destruct (is_expr_kind l) eqn:Ee.
+  { unfold replaced in Hr.
+    destruct (rm_lookup (reverse_map s) (VExpr (Node l ks))) as [[|q0 qs]|] eqn:Er.
+    - exfalso; eapply Hne; eauto.
+    - apply in_map_iff in Hr. destruct Hr as (q & Hq & Hin). subst r.
+      destruct (Hrm _ _ _ Er Hin) as [Hl Hp].
+      unfold mk_ex_param. rewrite apply_eq. unfold apply_node.
+      assert (Ety : ty_param (Node (K "EPath" "") [Node (K "ONone" "") []; mk_path_ident q]) = None) by reflexivity.
+      pose proof (ex_param_mk _ Hp) as E. unfold mk_ex_param in E. rewrite Ety, E.
+      unfold bound_term. rewrite Hl. reflexivity.
+    - apply Hdesc; [|exact Hr]. reflexivity. }
+  apply Hdesc; [|exact Hr]. reflexivity.
+Qed.
+
+Theorem subst_key_roundtrip s bounded trait_ : wf_subs s -> stable_key s bounded trait_ = true ->
+  forall rb rt, In (rb, rt) (subst_key s bounded trait_) ->
+  apply s rb = bounded /\ apply s rt = trait_.
+Proof.
+  intros Hwf Hst rb rt Hin. unfold stable_key in Hst. apply andb_true_iff in Hst. destruct Hst as [S1 S2].
+  unfold subst_key in Hin. apply in_flat_map in Hin. destruct Hin as (b & Hb & Hin).
+  apply in_map_iff in Hin. destruct Hin as (t & E & Ht). inversion E; subst.
+  split; eapply subst_roundtrip; eauto.
+Qed.
+
+Lemma nodupb_sound l : nodupb l = true -> NoDup l.
+Proof.
+  induction l as [|x r IH]; simpl; intro H; [constructor|].
+  apply andb_true_iff in H. destruct H as [H1 H2]. constructor; auto.
+  intro Hin. apply negb_true_iff in H1.
+  assert (existsb (String.eqb x) r = true).
+  { apply existsb_exists. exists x. split; auto. apply String.eqb_refl. }
+  congruence.
+Qed.
+
+Lemma wf_subsb_sound s : wf_subsb s = true -> wf_subs s.
+Proof.
+  unfold wf_subsb, wf_subs. intro H. apply andb_true_iff in H. destruct H as [H1 H2].
+  rewrite forallb_forall in H2. split; [apply nodupb_sound; auto|]. split.
+  - intros p v Hin. specialize (H2 _ Hin). simpl in H2. apply andb_true_iff in H2. tauto.
+  - intros p v Hin. specialize (H2 _ Hin). simpl in H2. apply andb_true_iff in H2. tauto.
+Qed.
